@@ -96,6 +96,13 @@ theorem hdr_nocrash (x : Ext) (cs : CharsetCheck) (hcs : ∀ n, ∃ r, cs n = .o
   have := checkAll_isSome x cs hcs now f
   intro h; rw [h] at this; cases this
 
+/-- **header_tags_total**: unconditional form — with a total charset fragment the stages return, and what they emit is the rule set -/
+theorem header_tags_total (x : Ext) (cs : CharsetCheck) (hcs : ∀ n, ∃ r, cs n = .ok r) (now : Int) (f : File) :
+    ∃ ts, checkAll x cs now f = some ts ∧ ∀ t, t ∈ ts ↔ Reported x cs now f t := by
+  cases h : checkAll x cs now f with
+  | none => exact absurd h (hdr_nocrash x cs hcs now f)
+  | some ts => exact ⟨ts, rfl, header_tags_eq x cs now f ts h⟩
+
 /-- the same with C20's charset fragment plugged in: total whenever the codecs behave (`Charset.check_total`) -/
 theorem hdr_nocrash_charset (x : Ext) (env : Charset.Env) (characters : Option (Option (List (List Nat))))
     (htbl : env.tbl = Generated.Charset.portableEncodings) (hc2e : env.c2e = Generated.Charset.pycodecToEncoding)
